@@ -1,5 +1,5 @@
 import Ivg.Gen.Tie.Code.MathBits
-import Ivg.Gen.Tie.Code.Math
+import Ivg.Gen.Tie.Code.MathInv
 /-!
 # Tie: `trigReduce` of Go's `math/trig_reduce.go` (Payne–Hanek argument reduction for |x| ≥ 2^29), as TRANSLATED from the
 Go source (`math_trigReduce`, on `UInt64` with `bits.Mul64/Add64/LeadingZeros64`), = the hand-written port
